@@ -668,7 +668,7 @@ class C10(Property):
                 "remover": rng.chance(0.85)}
 
     def gen_universe(self, rng, cfg):
-        ids = gen.IdAlloc(rng, 1, 120)
+        ids = gen.IdAlloc(rng, 1, 120, zero=0.15)
         lattice = rng.chance(0.25)
         net = gen.gen_network(rng, rows=rng.randint(1, 3), cols=rng.randint(1, 3), ids=ids, overlap=rng.chance(0.4),
                               lattice=lattice)
